@@ -1,0 +1,15 @@
+//go:build verif
+
+package util
+
+// VerifFileOp is the verification seam for integer file I/O (build tag "verif" only).
+// When set, it is consulted before every ReadIntFromFile / WriteIntToFile / WriteIntToFileAtomic.
+// handled=false lets the real operation proceed.
+var VerifFileOp func(op string, path string, value int) (handled bool, v int, err error)
+
+func verifFileOp(op string, path string, value int) (handled bool, v int, err error) {
+	if VerifFileOp == nil {
+		return false, 0, nil
+	}
+	return VerifFileOp(op, path, value)
+}
